@@ -234,6 +234,18 @@ pub fn pygen(out_path: &str, tier: Tier, seed: u64) -> i32 {
         }
         if r.bool(0.3) {
             sc.problem.goal.mode = GoalMode::List(vec![sc.problem.goal.centre.clone(), sc.problem.goal.centre.clone()]);
+        } else if r.bool(0.25) {
+            // a sampler that is not consistent with the goal predicate (e.g. one that samples
+            // the bounding box of the region): some of its states do not satisfy the goal. The
+            // core uses every sample as returned; so must the binding.
+            let c = sc.problem.goal.centre.clone();
+            let spec = sc.problem.spec.clone();
+            let mut out1 = crate::world::rand_state(&mut r, &spec);
+            let mut out2 = crate::world::rand_state(&mut r, &spec);
+            if canon_for_python(&spec, &mut out1) && canon_for_python(&spec, &mut out2) {
+                sc.problem.goal.mode = GoalMode::List(vec![out1, c.clone(), out2, c]);
+                sc.problem.tags.push("goal-sampler-leaves-the-goal".into());
+            }
         }
         sc.iters = 3000;
         sc.prm_samples = 60;
@@ -250,6 +262,8 @@ pub fn pygen(out_path: &str, tier: Tier, seed: u64) -> i32 {
                             // the number of validity queries is part of the observable behaviour:
                             // it changes when a parameter or a space setting is lost on the way
                             e["validity_calls"] = json!(d.log.borrow().n_valid);
+                            // ... and so is the number of goal samples drawn from the user's sampler
+                            e["goal_sample_calls"] = json!(d.log.borrow().n_goal_sample);
                         }
                         _ => {}
                     }
@@ -462,6 +476,12 @@ pub fn pyverify(prop: &str, scen_path: &str, res_path: &str, tier: Tier, seed: u
                                 b.count("validity_call_counts_compared", 1);
                                 if ec != pc {
                                     ctx.violate(&format!("python-validity-call-count-differs:{pname}"), format!("the core asked the checker {ec} times, the Python planner {pc} times for the same seeded problem"), replay(json!(null)));
+                                }
+                            }
+                            if let (Some(ec), Some(pc)) = (expected["goal_sample_calls"].as_u64(), res["goal_sample_calls"].as_u64()) {
+                                b.count("goal_sample_counts_compared", 1);
+                                if ec != pc {
+                                    ctx.violate(&format!("python-goal-sample-count-differs:{pname}"), format!("the core drew {ec} goal samples, the Python planner {pc} for the same seeded problem"), replay(json!(null)));
                                 }
                             }
                             if ep.len() >= 3 {
